@@ -88,6 +88,14 @@ def state_tie():
                     "StateC05Proofs.v", "StateGen.")
 
 
+def index_tie():
+    """IndexMarket.compute_market_index / compute_fundamental_index (C17): the accumulation over the components"""
+    import py2coq_state
+    src = os.path.join(REPO, "pams", "index_market.py")
+    return _run_tie("translator:pams/index_market.py(C17 kernel)", src, lambda: py2coq_state.translate_index_all(REPO), "IndexGen.v",
+                    "IndexC17Proofs.v", "IndexGen.")
+
+
 def holdings_sweep_c05(seed=0, tier="quick", cov=None):
     """directed search used with the C05 tie: the real Simulator._update_agents_for_execution on small populations and fill lists
     (self-trades, repeated parties, several markets), against the property text: the buyer pays price x volume and receives volume
